@@ -60,6 +60,13 @@ class Export:
                 self._cache[path] = json.load(open(fn))
             except Exception as e:
                 raise AnalysisBroken("no export for %s in config %s (%s)" % (path, self.cfg.name, e))
+            # a switch with one case label and a default has two successors like an `if`, but its condition is not a truth value: keep it
+            # under another key so that no rule reads it as the condition of a two-way branch
+            for f in self._cache[path].get("functions", ()):
+                for b in f.get("blocks", ()):
+                    t = b.get("term")
+                    if t and t.get("kind") == "SwitchStmt" and "cond" in t:
+                        t["switch_cond"] = t.pop("cond")
         return self._cache[path]
 
     def units(self):
@@ -218,6 +225,8 @@ def effective_cond(term):
     terminator condition of the block that evaluates only `b` (a was decided by the preceding `||` block), so the
     effective condition is the rightmost operand of the logical operators; a `!` around the logical expression
     (BELOW_THRESHOLD is `! ABOVE_THRESHOLD`, itself `t == 0 || (t != MAX && n >= t)`) is carried onto that operand."""
+    if term and term.get("kind") == "SwitchStmt":
+        return None                 # a switch with one case and a default has two successors too: its condition is not a truth value
     c = term.get("cond") if term else None
     neg = False
     while isinstance(c, dict):
